@@ -19,7 +19,8 @@
 (*     last stored there (StoreFast / StoreGlobal) - knowledge of locals is dropped at every  *)
 (*     StoreFree, which may write a captured local through a cell;                            *)
 (*   - a directly called compiled function hands its caller the value its ReturnValue saw;    *)
-(*   - BuildList n builds a list of n items.                                                  *)
+(*   - BuildList n builds a list of n items, BuildMap / BuildSet n a map / set of 1..n        *)
+(*     entries, Length pushes the length the projection shows.                               *)
 (* Unknown is never a finding: a rule speaks only when every value it needs was observed.     *)
 EXTENDS Bytecode, TLC, Json, IOUtils
 Progs == ndJsonDeserialize(IOEnv.VERIF_VSTEPS)
@@ -102,6 +103,9 @@ Findings(prev, cur) ==
                 IN F(cur.i = IF jump THEN nx + a - 2 ELSE nx, "conditional-jump-direction")
            ELSE {})
     [] o = BuildList -> F(tc[1].t = "l" /\ tc[1].v = a, "build-list")
+    [] o = BuildMap -> F(tc[1].t = "m" /\ tc[1].v <= a /\ (a = 0 \/ tc[1].v >= 1), "build-map")
+    [] o = BuildSet -> F(tc[1].t = "e" /\ tc[1].v <= a /\ (a = 0 \/ tc[1].v >= 1), "build-set")
+    [] o = Length -> IF tp[1].t \in {"s", "S", "l", "m", "e"} THEN F(tc[1] = IntV(tp[1].v) /\ tc[2] = tp[2], "length") ELSE {}
     [] o = Call /\ prev.k = "fn" ->
           IF cur.c \in DOMAIN ret THEN F(tc[1] = ret[cur.c], "returned-value-differs-from-callee-result") ELSE {}
     [] OTHER -> {}
